@@ -299,8 +299,12 @@ static void build_ops(void) {
     if (WITH_CYCLES) for (int k = 253; k <= 258; k++) OPS[NOPS++] = (op_t){OP_CYCLE, 0, 0, k, 0, "qtreetbl_getnext"};
     /* probes: below the minimum, every key, every gap / above the maximum */
     NPROBE = 0;
+    if (CFG == 1) {   /* binary keys of differing lengths: every key, every key with a byte appended (just above it; the key is a strict prefix of the probe) and every key with its last byte cut off (the probe is a strict prefix of the key) */
+        for (int r = 0; r < U; r++) { int i = ORDER[r]; PROBE[NPROBE++] = KEY[i]; blob_t g = KEY[i]; g.b[g.n++] = 0x00; PROBE[NPROBE++] = g; if (KEY[i].n > 1) { blob_t c = KEY[i]; c.n--; int dup = 0; for (int q = 0; q < NPROBE; q++) dup |= PROBE[q].n == c.n && !memcmp(PROBE[q].b, c.b, c.n); if (!dup) PROBE[NPROBE++] = c; } }
+    } else {
     PROBE[NPROBE].n = 2; memcpy(PROBE[NPROBE].b, "A", 2); NPROBE++;
     for (int r = 0; r < U; r++) { int i = ORDER[r]; PROBE[NPROBE++] = KEY[i]; blob_t g = KEY[i]; g.b[g.n - 1] = '~'; g.b[g.n] = 0; g.n++; PROBE[NPROBE++] = g; }
+    }
     for (int p = 0; p < NPROBE; p++) OPS[NOPS++] = (op_t){OP_NEAREST, p, 0, 0, p & 1, "qtreetbl_find_nearest"};
     for (int p = 0; p < NPROBE; p++) OPS[NOPS++] = (op_t){OP_NEARWALK, p, 0, 0, 0, "qtreetbl_find_nearest"};
 }
@@ -358,7 +362,7 @@ static int transition(const uint16_t *hist, int d, int opi, char *ckey, int verb
 
 static int mkprefix(char *key, const uint16_t *hist, int d) {
     char *k = key;
-    if (MODE_WALK) k += sprintf(k, "walk:%d:%d:", U, START_EPOCH); else k += sprintf(k, "map:%d:%d:%d:", CFG, U, NV);
+    if (MODE_WALK && CFG) k += sprintf(k, "walkb:%d:%d:", U, START_EPOCH); else if (MODE_WALK) k += sprintf(k, "walk:%d:%d:", U, START_EPOCH); else k += sprintf(k, "map:%d:%d:%d:", CFG, U, NV);
     for (int i = 0; i < d; i++) k += sprintf(k, "%d,", hist[i]);
     return k - key;
 }
@@ -378,6 +382,7 @@ static int search(int maxdepth) {
         if (d >= 3000) { complete = 0; continue; }
         int plen = mkprefix(key, hist, d);
         if ((idx & 0xff) == 0 && vc_deadline_hit()) { complete = 0; break; }
+        if (vc_nviol > 400) { complete = 0; break; }   /* enough counterexamples: do not explore the damaged state space to its end */
         for (int op = 0; op < NOPS; op++) {
             sprintf(key + plen, "%d", op);
             if (!vc_case(OPS[op].label, key)) continue;
@@ -390,7 +395,13 @@ static int search(int maxdepth) {
                         transition(hist, d, op, ckey2, 0); n_replays_checked++;
                         if (strcmp(ckey, ckey2)) { printf("NOTE\treplay divergence on %s\n", key); vc_stat_add("replay_divergence", 1); }
                     }
-                    if (b.nnodes <= 3 || (b.nnodes % 50000) == 0) vc_sample("history %s -> state %s", key, ckey);
+                    if (b.nnodes <= 3 || (b.nnodes % 50000) == 0) {
+                        static const char *KN[] = {"put", "remove", "clear", "walk", "abandon-after", "nearest", "nearest+walk", "one-step-walks x"};
+                        char txt[700], *q = txt; int shown = d > 12 ? 12 : d;
+                        if (d > shown) q += sprintf(q, "... (%d earlier ops) ", d - shown);
+                        for (int i = d - shown; i <= d && q - txt < 600; i++) { const op_t *o = &OPS[i < d ? hist[i] : op]; q += snprintf(q, 48, "%s(%d%s) ", KN[o->kind], o->kind == OP_ABANDON || o->kind == OP_CYCLE ? o->j : o->k, o->kind == OP_PUT ? (o->v == 0 ? ",v0" : o->v == 1 ? ",v1" : ",empty") : ""); }
+                        vc_sample("history [%s] -> state %s", txt, ckey);
+                    }
                 }
             }   /* a functional violation: the successor is not expanded (model and table have diverged) */
             vc_case_end();
@@ -415,6 +426,7 @@ static int replay(const char *key) {
     /* map:cfg:U:NV:ops  |  walk:U:epoch:ops */
     const char *p;
     if (!strncmp(key, "map:", 4)) { MODE_WALK = 0; int off; sscanf(key + 4, "%d:%d:%d:%n", &CFG, &U, &NV, &off); p = key + 4 + off; }
+    else if (!strncmp(key, "walkb:", 6)) { MODE_WALK = 1; CFG = 1; NV = 1; int off; sscanf(key + 6, "%d:%d:%n", &U, &START_EPOCH, &off); p = key + 6 + off; WITH_CYCLES = 0; }
     else if (!strncmp(key, "walk:", 5)) { MODE_WALK = 1; CFG = 0; NV = 1; int off; sscanf(key + 5, "%d:%d:%n", &U, &START_EPOCH, &off); p = key + 5 + off; WITH_CYCLES = U >= 3; }
     else return 1;
     setup_universe(); build_ops();
@@ -433,7 +445,7 @@ static int worker(int argc, char **argv) {
     if (argc < 5) return 1;
     int maxdepth = 0;
     if (!strcmp(argv[1], "map")) { MODE_WALK = 0; CFG = atoi(argv[2]); U = atoi(argv[3]); NV = atoi(argv[4]); }
-    else { MODE_WALK = 1; CFG = 0; NV = 1; U = atoi(argv[2]); maxdepth = atoi(argv[3]); START_EPOCH = atoi(argv[4]); WITH_CYCLES = maxdepth > 0; }
+    else { MODE_WALK = 1; CFG = argc > 5 ? atoi(argv[5]) : 0; NV = 1; U = atoi(argv[2]); maxdepth = atoi(argv[3]); START_EPOCH = atoi(argv[4]); WITH_CYCLES = maxdepth > 0 && CFG == 0; }
     setup_universe(); build_ops();
     int rc = search(maxdepth);
     if (rc == 2) vc_exhaustive = 0;
